@@ -369,3 +369,118 @@ def check_sentinel_truthiness(ctx, functions, rule='A10c'):
     ctx.ob(rule, f'program:{rule}:scan', True, 'adsg_core', 'scan for None sentinels tested by truthiness',
            f'{scanned} functions scanned, {n} site(s); positive control matched', nontrivial=False)
     return n
+
+
+# ------------------------------------------------------------------ (d) None key dereferenced
+def none_key_derefs(fn):
+    """Contradiction rule: the function (or its class, through `self.<attr>`) treats None as a possible key of a
+    mapping (`M[None]`, `None in M`, `None not in M`) but iterates over the keys of the same mapping and
+    dereferences them without excluding None.  Returns [(mapping text, key variable, deref node)]."""
+    body = ast.Module(body=list(fn.body), type_ignores=[])
+    alias = {}
+    for s in walk_no_nested(body):
+        if isinstance(s, ast.Assign) and len(s.targets) == 1 and isinstance(s.targets[0], ast.Name) and \
+                isinstance(s.value, ast.Attribute) and isinstance(s.value.value, ast.Name) and \
+                s.value.value.id == 'self':
+            alias[s.targets[0].id] = norm(s.value)
+
+    def canon(e):
+        t = norm(e)
+        return alias.get(t, t)
+    evidence = set()
+    scope = [fn]
+    if fn.owner_class is not None:
+        scope = list(fn.owner_class.methods.values())
+    for f in scope:
+        fb = ast.Module(body=list(f.body), type_ignores=[])
+        fal = {}
+        for s in walk_no_nested(fb):
+            if isinstance(s, ast.Assign) and len(s.targets) == 1 and isinstance(s.targets[0], ast.Name) and \
+                    isinstance(s.value, ast.Attribute) and isinstance(s.value.value, ast.Name) and \
+                    s.value.value.id == 'self':
+                fal[s.targets[0].id] = norm(s.value)
+        for s in walk_no_nested(fb):
+            if isinstance(s, ast.Subscript) and isinstance(s.slice, ast.Constant) and s.slice.value is None:
+                t = norm(s.value)
+                t = fal.get(t, t)
+                if t.startswith('self.') or f is fn:
+                    evidence.add(t)
+            if isinstance(s, ast.Compare) and len(s.ops) == 1 and isinstance(s.ops[0], (ast.In, ast.NotIn)) and \
+                    isinstance(s.left, ast.Constant) and s.left.value is None:
+                t = norm(s.comparators[0])
+                t = fal.get(t, t)
+                if t.startswith('self.') or f is fn:
+                    evidence.add(t)
+    out = []
+    if not evidence:
+        return out
+    for s in walk_no_nested(body):
+        gens = []
+        if isinstance(s, ast.For):
+            gens.append((s.target, s.iter, s.body, None))
+        elif isinstance(s, (ast.ListComp, ast.SetComp, ast.DictComp, ast.GeneratorExp)):
+            for g in s.generators:
+                elts = [s.key, s.value] if isinstance(s, ast.DictComp) else [s.elt]
+                gens.append((g.target, g.iter, elts, g.ifs))
+        for tgt, it, scope_nodes, ifs in gens:
+            base, keypos = it, None
+            if isinstance(it, ast.Call) and isinstance(it.func, ast.Attribute) and it.func.attr in ('items', 'keys') \
+                    and not it.args:
+                base = it.func.value
+                keypos = 0 if it.func.attr == 'items' else None
+            if canon(base) not in evidence:
+                continue
+            if keypos == 0:
+                if not (isinstance(tgt, ast.Tuple) and isinstance(tgt.elts[0], ast.Name)):
+                    continue
+                k = tgt.elts[0].id
+            else:
+                if not isinstance(tgt, ast.Name):
+                    continue
+                k = tgt.id
+            guarded = False
+            if ifs is not None:
+                for c in ifs:
+                    for atom, truth in implied_facts(c, True):
+                        if _not_none_fact(k)(atom, truth):
+                            guarded = True
+            nodes = scope_nodes if isinstance(scope_nodes, list) else [scope_nodes]
+            for stx in nodes:
+                if guarded:
+                    break
+                # for loops: an early `if k is None: continue` as first statements
+                if ifs is None and isinstance(stx, ast.If) and any(
+                        isinstance(atom, ast.Compare) and norm(atom) == f'{k} is None'
+                        for atom, _ in implied_facts(stx.test, True)) and \
+                        any(isinstance(b, (ast.Continue, ast.Return, ast.Raise)) for b in stx.body):
+                    guarded = True
+                    break
+                for sub in ast.walk(stx):
+                    if isinstance(sub, ast.Attribute) and isinstance(sub.value, ast.Name) and sub.value.id == k and \
+                            isinstance(sub.ctx, ast.Load):
+                        out.append((canon(base), k, sub))
+                        break
+                else:
+                    continue
+                break
+    return out
+
+
+def check_none_key_deref(ctx, functions, rule='A10d'):
+    n = 0
+    scanned = 0
+    for fn in functions:
+        if isinstance(fn.node, ast.Lambda):
+            continue
+        scanned += 1
+        for m, k, node in none_key_derefs(fn):
+            n += 1
+            ctx.touch(fn)
+            ctx.ob(rule, fkey(fn, rule, f'{m}:{k}.{node.attr}'), False, f'{fn.module.relpath}:{node.lineno}',
+                   f'`{m}` is treated as possibly containing the key None elsewhere in this class; every iteration '
+                   f'over its keys excludes None before dereferencing the key',
+                   f'`{short(node, 40)}` dereferences the key `{k}` of `{m}` without excluding None: raises '
+                   f'AttributeError as soon as the (legal) None entry is present')
+    ctx.ob(rule, f'program:{rule}:scan', True, 'adsg_core', 'scan for None keys dereferenced',
+           f'{scanned} functions scanned, {n} site(s)', nontrivial=False)
+    return n
